@@ -458,8 +458,11 @@ def call_builtin(I: Interp, n: str, args, kwargs, fr: Frame, node=None):
         return const(isinstance(args[0], (PFunc, PBound)) or (isinstance(args[0], SV) and args[0].ty.k == "callable"))
     if n == "repr":
         return st.fresh_val("repr", T.STR)
-    if n in ("next", "iter"):
-        raise Refuse(f"{n}()")
+    if n == "next":
+        from .comp import eval_next
+        return eval_next(I, args[0], args[1] if len(args) > 1 else None, fr, node)
+    if n == "iter":
+        raise Refuse("iter()")
     if n == "super":
         from .interp import PSuper
         return PSuper(fr.cls, fr.selfv)
